@@ -15,6 +15,7 @@ import (
 	lz4 "github.com/janelia-flyem/go/golz4-updated"
 
 	"github.com/janelia-flyem/dvid/dvid"
+	"github.com/janelia-flyem/dvid/storage"
 	"verif/harness/dv"
 	"verif/harness/lib"
 )
@@ -270,12 +271,24 @@ func main() {
 		}
 		switch c.Kind {
 		case "big-serialize":
+			// the case may depend on the serialisation made just before it (recycled buffers)
+			for _, n := range []int{65536, 40000, 32768} {
+				if n < c.Pos {
+					goSerialize(bigData(n + 1)[:n], c.Comp, -1, 0)
+					break
+				}
+			}
 			addBigSer(run, c.Pos, c.Comp, c.Level, c.Cks)
 		case "big-corrupt":
 			var n int
 			fmt.Sscan(string(c.Data), &n)
 			_, sbytes := goSerialize(bigData(n), c.Comp, c.Level, c.Cks)
 			addBigCorrupt(run, sbytes, n, c.Comp, c.Level, c.Cks, c.Pos, c.B)
+		case "stored-metadata":
+			kvOpen()
+			addKV(run, 0, 0, []byte{1})
+			scanMeta(run, rng)
+			dv.Close()
 		case "kv":
 			kvOpen()
 			addKV(run, int(c.Comp), c.Cks, c.Data)
@@ -441,7 +454,19 @@ func main() {
 			}
 		}
 	}
+	scanMeta(run, rng)
 	dv.Close()
+
+	// serialisations in immediate succession (buffers recycled between calls must not leak their size): a value,
+	// then an incompressible one slightly larger
+	for _, n := range []int{32768, 40000, 65536} {
+		for _, d := range []int{1, 15, 16, 100, n / 255, n/255 + 16, n / 2} {
+			for _, comp := range []uint8{4, 1, 2} {
+				goSerialize(bigData(n + 1)[:n], comp, -1, 0) // text-like (odd size), cut to n
+				addBigSer(run, n+d+(n+d)%2, comp, -1, uint8(d%2))
+			}
+		}
+	}
 
 	// illegal parameters
 	addSer([]byte{1, 2, 3}, 3, -1, 0)
@@ -529,6 +554,36 @@ func addBigCorrupt(run *lib.Run, sbytes []byte, n int, comp uint8, level int8, c
 	term := fmt.Sprintf("CBigCorrupt %d %d %d %d %s %s", n, comp, cks, pos, lib.CoqBool(libcls != "ok"), cl)
 	run.Count("big-corrupt-result:" + gc)
 	run.Add("big-corrupt", term, jcase{Kind: "big-corrupt", Comp: comp, Level: level, Cks: cks, Pos: pos, B: mask, Data: []byte(fmt.Sprint(n))}, fmt.Sprintf("bigc/%d/%d/%d/%d/%d", n, comp, cks, pos, mask))
+}
+
+// scanMeta: the repos as stored (metadata values written by repoT.saveToStore): format byte and detection of
+// single-bit alterations of the stored value.  The datastore must be open.
+func scanMeta(run *lib.Run, rng *lib.Rand) {
+	if mdb, err := storage.MetaDataKVStore(); err == nil {
+		var mctx storage.MetadataContext
+		kvs, err := mdb.GetRange(mctx, storage.MinTKey(storage.TKeyMinClass), storage.MaxTKey(storage.TKeyMaxClass))
+		if err != nil {
+			fmt.Fprintln(os.Stderr, "c15: cannot read the metadata range:", err)
+			os.Exit(2)
+		}
+		for _, kv := range kvs {
+			if kv == nil || len(kv.K) == 0 || len(kv.V) < 6 {
+				continue
+			}
+			all := true
+			for i := 0; i < 48; i++ {
+				mut := append([]byte{}, kv.V...)
+				pos := 5 + rng.Intn(len(mut)-5)
+				mut[pos] ^= byte(1) << uint(rng.Intn(8))
+				if cls, _, _ := goDeserialize(mut, true); cls == "ok" {
+					all = false
+				}
+			}
+			run.Count(fmt.Sprintf("stored-metadata:class%d", kv.K[0]))
+			run.Add("stored-metadata", fmt.Sprintf("CMeta %d %d %d %s", kv.K[0], kv.V[0], len(kv.V), lib.CoqBool(all)),
+				jcase{Kind: "stored-metadata"}, fmt.Sprintf("meta/%d/%d/%d", kv.K[0], kv.V[0], len(kv.V)))
+		}
+	}
 }
 
 // keyvalue instances, one per (compression setting, checksum), created on demand in one repo
